@@ -14,6 +14,14 @@ class Boom(Exception):
     pass
 
 
+class Rejected(tuple):
+    """a result the supplied mapping refuses to store"""
+
+
+class StoreBoom(Exception):
+    pass
+
+
 class FalsyV(tuple):
     def __bool__(self):
         return False
@@ -36,6 +44,8 @@ class CEnv:
         self.lock_owner = None
         self.dead = False
         self.keep = []             # every task created: nothing is finalized by the garbage collector during the run
+        self.none_pending = {}     # caller -> invocation whose result was None (a value like any other)
+        self.last_get = {}         # caller -> invocation whose value it last read from the cache
 
     def cur(self):
         if self.dead:
@@ -86,6 +96,7 @@ class ILock:
 class ICache(collections.abc.MutableMapping):
     def __init__(self, E, capacity=None):
         self.d = collections.OrderedDict()
+        self.me_of = {}            # key -> invocation that produced the stored value (None values carry no tag)
         self.capacity = capacity
         self.E = E
 
@@ -100,7 +111,9 @@ class ICache(collections.abc.MutableMapping):
         except KeyError:
             E.obs.append(f'cg:{c}:m')
             raise
-        E.obs.append(f'cg:{c}:h:{v[1]}')
+        m = v[1] if v is not None else self.me_of.get(k)
+        E.last_get[c] = m
+        E.obs.append(f'cg:{c}:h:{m}')
         return v
 
     def __setitem__(self, k, v):
@@ -110,8 +123,12 @@ class ICache(collections.abc.MutableMapping):
             self.d[k] = v
             return
         E.S.point('cache.set')
+        if isinstance(v, Rejected):
+            raise StoreBoom(v[1])
         self.d[k] = v
-        E.obs.append(f'cs:{c}:{v[1]}')
+        m = v[1] if v is not None else E.none_pending.get(c)
+        self.me_of[k] = m
+        E.obs.append(f'cs:{c}:{m}')
         while self.capacity is not None and len(self.d) > self.capacity:
             old, _ = self.d.popitem(last=False)
             E.obs.append(f'ev:{old[0][0]}')
@@ -285,6 +302,7 @@ def run_scenario(scn, seed, pct=0, choices=None, preempt=None):
     proxy.Event = type('IEventE', (IEvent,), {'E': E})
     A.aio = proxy
     cache = ICache(E, scn['capacity'])
+    vsalt = len(scn['loops']) + sum(len(lp['callers']) for lp in scn['loops'])
 
     async def f(key):
         c = E.cur()
@@ -303,9 +321,20 @@ def run_scenario(scn, seed, pct=0, choices=None, preempt=None):
                 if (me + len(scn['loops'])) % 3 == 1:
                     raise BoomBase(me)
                 raise Boom(me)
+            if (me + vsalt) % 5 == 4 and scn.get('capacity') is None:
+                # the supplied mapping refuses this value (`__setitem__` raises, as a size-bounded mapping does): for
+                # the protocol that is a failed computation - the caller gets the mapping's error, nothing is cached,
+                # waiters are woken
+                rec['out'] = ('raise', me)
+                E.obs.append(f'ie:{c}:1:{me}')
+                return Rejected(('v', me))
             rec['out'] = ('ok', me)
             E.obs.append(f'ie:{c}:0:{me}')
-            return (FalsyV if me % 2 else tuple)(('v', me))    # a cached value may well be falsy
+            vk = (me + vsalt) % 3
+            if vk == 2:
+                E.none_pending[c] = me                      # a cached value may well be None ...
+                return None
+            return (FalsyV if vk else tuple)(('v', me))     # ... or falsy
         except asyncio.CancelledError:
             rec['out'] = ('cancel', me)
             E.obs.append(f'ie:{c}:2:0')
@@ -340,9 +369,10 @@ def run_scenario(scn, seed, pct=0, choices=None, preempt=None):
                 t0 = S.vt
                 try:
                     r = await w(cs['key'])
-                    E.obs.append(f'rt:{c}:0:{r[1]}')
-                    E.results[c] = dict(loop=li, key=cs['key'], t0=t0, t1=S.vt, out=('ok', r[1]))
-                except (Boom, BoomBase) as e:
+                    m = r[1] if r is not None else (E.none_pending[c] if c in E.none_pending else E.last_get.get(c))
+                    E.obs.append(f'rt:{c}:0:{m}')
+                    E.results[c] = dict(loop=li, key=cs['key'], t0=t0, t1=S.vt, out=('ok', m))
+                except (Boom, BoomBase, StoreBoom) as e:
                     E.obs.append(f'rt:{c}:1:{e.args[0]}')
                     E.results[c] = dict(loop=li, key=cs['key'], t0=t0, t1=S.vt, out=('boom', e.args[0]))
                 except asyncio.CancelledError:
